@@ -127,6 +127,13 @@ public:
     auto deadline = Clock::now() + delay;
 
     std::lock_guard lock(_wheelMutex);
+    // Re-check under the lock: stop()/drain() clear the wheel under _wheelMutex
+    // after clearing _accepting, so an entry inserted past this point would be
+    // accepted by a stopped wheel and never fire.
+    if (!_accepting.load(std::memory_order_acquire))
+    {
+      return InvalidTimerId;
+    }
     auto* entry = allocEntry(); // alloc under _wheelMutex to prevent ABBA with _poolMutex
     entry->id = id;
     entry->callback = std::move(callback);
